@@ -124,6 +124,30 @@ func TestVerifC18(t *testing.T) {
 			}
 		}
 		rec(nil)
+		// long prefixes: n disjoint classes, then every range over a window that covers two neighbouring classes and the
+		// gaps around them (every overlap pattern at every class count up to maxLong: the counts at which the class
+		// slice is full and grows are among them)
+		maxLong := 12 * maxN
+		for n := 0; n <= maxLong; n++ {
+			var prefix [][2]int32
+			for k := 0; k < n; k++ {
+				prefix = append(prefix, [2]int32{int32(4*k + 1), int32(4*k + 2)})
+			}
+			j := n / 2
+			for a := 4*j - 1; a <= 4*j+7; a++ {
+				for b := a; b <= 4*j+7; b++ {
+					if a < 0 {
+						continue
+					}
+					seq := append(append([][2]int32(nil), prefix...), [2]int32{int32(a), int32(b)})
+					cases++
+					if m := verifC18Check(seq); m != "" && len(fails) < 20 {
+						bs, _ := json.Marshal(verifC18Case{seq})
+						fails = append(fails, string(bs)+" "+m)
+					}
+				}
+			}
+		}
 	case strings.HasPrefix(mode, "replay:"):
 		var c verifC18Case
 		if err := json.Unmarshal([]byte(mode[len("replay:"):]), &c); err != nil {
